@@ -13,19 +13,23 @@ Open Scope Z_scope.
 (* ================================================================== *)
 
 (* ---- PackInfo ---- *)
-(* CRCs at the defined positions *)
+(* CRCs at the defined positions: what the writer emits *)
 Fixpoint select_defined (dd : list bool) (cs : list Z) : list Z :=
   match dd, cs with
   | d :: ds, c :: cs' => if d then c :: select_defined ds cs' else select_defined ds cs'
   | _, _ => []
   end.
 
+(* digest values with the undefined entries zeroed *)
+Definition mask_digests (dg : list Z) (dd : list bool) : list Z :=
+  map (fun p : Z * bool => if snd p then fst p else 0) (combine dg dd).
+
 Definition norm_pack (en : bool) (p : packinfo) : packinfo :=
   if any_true (p_digestdefined p) || en
-  then (* N-PACK-CRC-UNDEFINED: only the CRCs of defined streams are stored; the reader's
-          crcs list has one entry per DEFINED stream (positions of undefined ones vanish) *)
+  then (* N-PACK-CRC-UNDEFINED: only the CRCs of defined streams are stored; the value kept in
+          `crcs` at an undefined position comes back as 0 (the list stays aligned) *)
        mkPack (p_pos p) (p_numstreams p) (p_sizes p) (p_digestdefined p)
-              (select_defined (p_digestdefined p) (p_crcs p))
+              (mask_digests (p_crcs p) (p_digestdefined p))
   else (* N-PACK-NODIGEST: without enable_digests and with no digest defined, no CRC
           section is written: digestdefined and crcs come back empty *)
        mkPack (p_pos p) (p_numstreams p) (p_sizes p) [] [].
@@ -107,10 +111,6 @@ Definition wf_sub (lim : Z) (fs : list folder) (s : substreams) : bool :=
   (if sub_multi s
    then match s_sizes s with Some sz => wf_sub_sizes (s_nums s) fs sz | None => false end
    else true).
-
-(* digest values with the undefined entries zeroed *)
-Definition mask_digests (dg : list Z) (dd : list bool) : list Z :=
-  map (fun p : Z * bool => if snd p then fst p else 0) (combine dg dd).
 
 Definition norm_sub (s : substreams) : substreams :=
   mkSub (s_nums s)
@@ -245,6 +245,14 @@ Proof.
       * apply Ok_inj in Ha. subst a. cbn [app]. split; [exact H1|lia].
 Qed.
 
+Lemma expand_select dd : forall crcs, (length dd <= length crcs)%nat ->
+  expand_crcs dd (select_defined dd crcs) = Ok (mask_digests crcs dd).
+Proof.
+  unfold mask_digests. induction dd as [|d ds IH]; intros crcs Hl; [destruct crcs; reflexivity|].
+  destruct crcs as [|c cs]; [cbn [length] in Hl; lia|]. cbn [length] in Hl.
+  cbn [select_defined combine map fst snd]. destruct d; cbn [expand_crcs]; rewrite (IH cs) by lia; reflexivity.
+Qed.
+
 Theorem packinfo_roundtrip lim en p bs :
   wf_pack lim en p = true -> write_packinfo en p = Ok bs ->
   exists body, bs = 6 :: body /\
@@ -270,7 +278,8 @@ Proof.
     replace (p_numstreams p) with (zlen (p_digestdefined p)) at 1 by lia.
     rewrite rd_boolean_wr_boolean by (intros _ _; lia). cbn [bind].
     unfold rd_defined_crcs. rewrite Hx2.
-    bstep (rd_many_fixed 4 _ _ (0 :: r) ltac:(lia) Hx1). cbn [rd_pid bind].
+    bstep (rd_many_fixed 4 _ _ (0 :: r) ltac:(lia) Hx1).
+    rewrite expand_select by (unfold zlen in *; lia). cbn [rd_pid bind].
     reflexivity.
   - apply Ok_inj in Hd. subst d. cbn [app rd_pid bind]. reflexivity.
 Qed.
@@ -1346,16 +1355,24 @@ Proof.
   rewrite mask_digests_idem. destruct (existsb _ _); reflexivity.
 Qed.
 
-(* N-PACK-CRC-UNDEFINED is NOT idempotent: the reader compacts the CRC list to the defined
-   entries, the writer indexes it by stream number and insists on len(crcs) = numstreams.
-   A header that py7zr has read (here: the example, whose pack CRCs are [defined; undefined])
-   can therefore not be written again: *)
-Example reparsed_header_not_rewritable_refuted :
+Lemma norm_pack_idem en p : norm_pack en (norm_pack en p) = norm_pack en p.
+Proof.
+  unfold norm_pack. destruct (any_true (p_digestdefined p) || en) eqn:E.
+  - cbn [p_digestdefined p_pos p_numstreams p_sizes p_crcs]. rewrite E, mask_digests_idem. reflexivity.
+  - cbn [p_digestdefined p_pos p_numstreams p_sizes p_crcs]. cbn [any_true existsb orb].
+    apply orb_false_iff in E as [_ ->]. reflexivity.
+Qed.
+
+(* N-PACK-CRC-UNDEFINED is idempotent now that the reader keeps `crcs` aligned with the streams:
+   the header that py7zr has read back (here: the example, whose pack CRCs are
+   [defined; undefined]) can be written again, and to the very same bytes *)
+Example reparsed_header_rewritable :
   exists bs h', write_header false 32 ex_header = Ok bs /\ parse_header 1000 bs = Ok h' /\
-                write_header false 32 h' = Err EOther /\ write_header true 32 h' = Err EOther.
+                write_header false 32 h' = Ok bs /\ wf_header 1000 false h' = true /\
+                norm false h' = h'.
 Proof.
   eexists. eexists. split; [vm_compute; reflexivity|]. split; [vm_compute; reflexivity|].
-  split; vm_compute; reflexivity.
+  split; [vm_compute; reflexivity|]. split; vm_compute; reflexivity.
 Qed.
 
 Print Assumptions header_roundtrip.
